@@ -231,7 +231,7 @@ def run_streams(tier):
 
 PROPS['C13'] = dict(
     family='line', tags={'B': 'run', 'L': 'run', 'G': 'run', 'H': 'run', 'E': 'run', 'O': 'run', 'F': 'divider', 'C': 'divider'},
-    theorems=['C13_expression_last', 'C13_expression_verbatim', 'C13_replace_crlf', 'C13_render_output', 'C13_capture_untouched', 'C13_capture_conserves_bytes', 'C13_divider_split_ideal', 'C13_script_reads_back'],
+    theorems=['C13_expression_last', 'C13_expression_verbatim', 'C13_replace_crlf', 'C13_render_output', 'C13_capture_untouched', 'C13_capture_conserves_bytes', 'C13_divider_split_ideal', 'C13_script_reads_back', 'C13_strip_exactly_colour_sequences', 'C13_strip_leaves_plain_text'],
     streams=run_streams,
     spec_kinds=['SPEC:C13'], corr_kinds=['DIFF:template', 'DIFF:crlf', 'DIFF:render_output', 'DIFF:capture', 'DIFF:divider', 'DIFF:script'],
     case_format='B <hex state dir> <hex name> <hex shell expression>|<exit>:<hex of the script the shell received (shell = /bin/cat)>   '
